@@ -50,6 +50,7 @@ CONFIGS = {
     # cmake -DGRAPHITE2_TELEMETRY=ON: only the units that install an allocation category are parsed (C09 TELESCOPE)
     # tracing compiled in (what cmake builds unless GRAPHITE2_NTRACING is set): only the rule driver is parsed (C04 DETACH/garbage)
     'tracepass': {'defs': ['NDEBUG'], 'vm': 'direct', 'units': ['Pass.cpp']},
+    'tracejust': {'defs': ['NDEBUG'], 'vm': 'direct', 'units': ['Justifier.cpp']},
     'tele':     {'defs': ['GRAPHITE2_NTRACING', 'NDEBUG', 'GRAPHITE2_TELEMETRY'], 'vm': 'direct',
                  'units': ['gr_face.cpp', 'Face.cpp', 'Pass.cpp', 'Code.cpp', 'gr_logging.cpp']},
 }
